@@ -43,7 +43,7 @@ typedef struct {
 static struct {
     elem_t e[NELEM];
     slot_t s[2];
-    int    scen, ndds, cache, blk, nblk, nslots;
+    int    scen, ndds, cache, blk, nblk, nslots, hole;
     int    nops, ngrp;
     int    readonly; /* file opened read-only after reopen(R) */
 } M;
@@ -110,12 +110,21 @@ check_element_content(int e, const char *where, int after_reopen)
             bad = 1;
         }
         int32 r = Hread(aid, 0, buf);
-        int   has_unspec = 0;
-        for (int i = 0; i < m->len; i++)
+        int   has_unspec = 0, has_gap = 0;
+        for (int i = 0; i < m->len; i++) {
             if (m->cls[i] == CL_UNSPEC)
                 has_unspec = 1;
+            if (m->cls[i] == CL_GAP)
+                has_gap = 1;
+        }
         if (r == FAIL && has_unspec) {
             /* reserved-but-never-written space may not physically exist yet: unspecified */
+        }
+        else if (r == FAIL && has_gap && M.cache && !after_reopen) {
+            /* recorded deviation: see known_findings (the file is not physically extended before the flush) */
+            VIOL("read-fails-on-seek-gap-before-flush", "%s: reading element %d (length %d) across a seek gap fails before the file is flushed (DD caching on)",
+                 where, e, m->len);
+            mc_count("read_failed_on_unflushed_gap", 1);
         }
         else if (m->len == 0) {
             if (r != 0 && r != FAIL) {
@@ -411,6 +420,16 @@ apply(const mc_op *op)
                         unspec = 1;
                 if (unspec)
                     break; /* reserved-but-never-written space: unspecified */
+                int gap = 0;
+                for (int i = 0; i < want; i++)
+                    if (m->cls[sl->pos + i] == CL_GAP)
+                        gap = 1;
+                if (gap && M.cache) {
+                    mc_violation("read-fails-on-seek-gap-before-flush", "Hread(%d) at pos %d of element %d (length %d) across a seek gap fails before the file is flushed (DD caching on)",
+                                 n, sl->pos, sl->e, m->len);
+                    mc_count("read_failed_on_unflushed_gap", 1);
+                    break;
+                }
             }
             if (want <= 0) {
                 if (r != FAIL && r != 0) {
@@ -743,7 +762,7 @@ key(void)
 {
     uint64_t h = MC_H0;
     h          = mc_hash_i(h, M.scen * 1000 + M.ndds * 10 + M.cache);
-    h          = mc_hash_i(h, M.blk * 10 + M.nblk);
+    h          = mc_hash_i(h, M.blk * 100 + M.nblk * 10 + M.hole);
     h          = mc_hash_i(h, M.readonly);
     for (int e = 0; e < NELEM; e++) {
         elem_t *m = &M.e[e];
@@ -831,10 +850,10 @@ put_plain(int e, int len)
 }
 
 static int
-setup(int scen, int ndds, int cache, int blk, int nblk, int nslots)
+setup(int scen, int ndds, int cache, int blk, int nblk, int nslots, int hole)
 {
     memset(&M, 0, sizeof M);
-    M.scen = scen, M.ndds = ndds, M.cache = cache, M.blk = blk, M.nblk = nblk, M.nslots = nslots;
+    M.scen = scen, M.ndds = ndds, M.cache = cache, M.blk = blk, M.nblk = nblk, M.nslots = nslots, M.hole = hole;
     vfs_remove_file(PATH);
     vfs_remove_file(EXTPATH);
     Hcache(CACHE_ALL_FILES, 1);
@@ -848,10 +867,18 @@ setup(int scen, int ndds, int cache, int blk, int nblk, int nslots)
         d[i] = datum(40, i);
     if (scen == SC_LINKED) {
         int32 aid = HLcreate(fid, TAG, ref_of(0), blk, nblk);
-        if (aid == FAIL || Hwrite(aid, 4, d) != 4 || Hendaccess(aid) == FAIL)
+        if (aid == FAIL || Hwrite(aid, 4, d) != 4)
             return -1;
         M.e[0].exists = 1;
         model_write(0, 0, 4, d);
+        if (hole) {
+            /* start state with a seek gap: blocks (and whole block tables) that were never written */
+            if (Hseek(aid, 3, DF_CURRENT) == FAIL || Hwrite(aid, 1, d + 1) != 1)
+                return -1;
+            model_write(0, 7, 1, d + 1);
+        }
+        if (Hendaccess(aid) == FAIL)
+            return -1;
     }
     else if (scen == SC_EXT) {
         int32 aid = HXcreate(fid, TAG, ref_of(0), EXTPATH, blk /* offset in the external file */, 0);
@@ -871,7 +898,7 @@ setup(int scen, int ndds, int cache, int blk, int nblk, int nslots)
 }
 
 typedef struct {
-    int scen, ndds, cache, blk, nblk, nslots, depth, dev;
+    int scen, ndds, cache, blk, nblk, nslots, hole, depth, dev;
 } cfg_t;
 
 static mc_harness H = {enum_ops, apply, key, terminal, fmt_op, dev_cost};
@@ -879,9 +906,9 @@ static mc_harness H = {enum_ops, apply, key, terminal, fmt_op, dev_cost};
 static void
 set_cfg(const cfg_t *c)
 {
-    int cfg[6] = {c->scen, c->ndds, c->cache, c->blk, c->nblk, c->nslots};
-    mc_set_config(cfg, 6, "scenario=%s ndds=%d cache=%s blk=%d nblk=%d slots=%d", scname[c->scen], c->ndds, c->cache ? "on" : "off", c->blk, c->nblk,
-                  c->nslots);
+    int cfg[7] = {c->scen, c->ndds, c->cache, c->blk, c->nblk, c->nslots, c->hole};
+    mc_set_config(cfg, 7, "scenario=%s ndds=%d cache=%s blk=%d nblk=%d slots=%d hole=%d", scname[c->scen], c->ndds, c->cache ? "on" : "off", c->blk,
+                  c->nblk, c->nslots, c->hole);
 }
 
 static void
@@ -889,7 +916,7 @@ root(void *arg)
 {
     cfg_t *c = arg;
     set_cfg(c);
-    if (setup(c->scen, c->ndds, c->cache, c->blk, c->nblk, c->nslots)) {
+    if (setup(c->scen, c->ndds, c->cache, c->blk, c->nblk, c->nslots, c->hole)) {
         mc_violation("prologue", "prologue of scenario %s failed or start state disagrees with the model", scname[c->scen]);
         return;
     }
@@ -906,10 +933,10 @@ C01_main(const char *tier, const char *replay)
             fprintf(stderr, "bad replay file\n");
             return 2;
         }
-        cfg_t c = {cfg[0], cfg[1], cfg[2], cfg[3], cfg[4], cfg[5], 0, 0};
+        cfg_t c = {cfg[0], cfg[1], cfg[2], cfg[3], cfg[4], cfg[5], ncfg > 6 ? cfg[6] : 0, 0, 0};
         set_cfg(&c);
         printf("replay C01: scenario=%s ndds=%d cache=%d blk=%d nblk=%d slots=%d, %d ops\n", scname[c.scen], c.ndds, c.cache, c.blk, c.nblk, c.nslots, nops);
-        if (setup(c.scen, c.ndds, c.cache, c.blk, c.nblk, c.nslots)) {
+        if (setup(c.scen, c.ndds, c.cache, c.blk, c.nblk, c.nslots, c.hole)) {
             printf("prologue failed\n");
             return 0;
         }
@@ -929,13 +956,15 @@ C01_main(const char *tier, const char *replay)
                 /* quick: (ndds 4, cache on), (ndds 5, cache off); thorough adds (16,on), (4,off) */
                 static const int nd[4] = {4, 5, 16, 4}, ca[4] = {1, 0, 1, 0};
                 int              nvar = (scen == SC_LINKED || scen == SC_CONVERT) ? (thorough ? 4 : 2) : (scen == SC_EXT ? 2 : 1);
-                for (int v = 0; v < nvar; v++)
+                int              nhole = scen == SC_LINKED ? 2 : 1;
+                for (int v = 0; v < nvar * nhole; v++)
                     for (int nslots = 1; nslots <= 2; nslots++) {
                         static const int blks[4] = {2, 1, 3, 3}, nbl[4] = {1, 2, 2, 1};
                         cfg_t           *c = &cfgs[ncfg++];
                         c->scen = scen, c->ndds = nd[ci], c->cache = ca[ci];
-                        c->blk    = scen == SC_EXT ? (v ? 3 : 0) : blks[v];
-                        c->nblk   = nbl[v];
+                        c->blk    = scen == SC_EXT ? (v ? 3 : 0) : blks[v % nvar];
+                        c->nblk   = nbl[v % nvar];
+                        c->hole   = v / nvar;
                         c->nslots = nslots;
                         c->depth  = nslots == 1 ? depth + 1 : depth;
                         c->dev    = thorough ? 2 : 1;
